@@ -174,7 +174,10 @@ Definition wf (m : mmap) : Prop :=
   ∀ k t, timers m !! k = Some t → t_vals t = [] → t_samp t = 0%Qc.
 
 Lemma flush_timer_wf t : (t_vals t = [] → t_samp t = 0%Qc) → flush_timer t = t.
-Proof. destruct t as [vs sp ts src tg]; unfold flush_timer; cbn. destruct vs; [|done]. intros ->; done. Qed.
+Proof.
+  destruct t as [vs sp ts src tg]; unfold flush_timer; cbn [t_vals t_samp t_ts t_src t_tags].
+  destruct (has_histogram_tag tg); [done|]. destruct vs; [|done]. intros ->; done.
+Qed.
 
 Lemma agg_flush_wf m : wf m → agg_flush m = m.
 Proof.
